@@ -104,6 +104,51 @@ func runC16(c *Ctx) {
 	}
 
 	c16OwnAttributes(c)
+	c16OptionalOnlyWhenAbsent(c)
+}
+
+// c16OptionalOnlyWhenAbsent: the helper that renders a default value returns "absent" (nil) only when the schema node has no default.
+func c16OptionalOnlyWhenAbsent(c *Ctx) {
+	c.R.Rule("default-only-absent", "introspection's default-value renderer returns nil only on the edge where its *ast.Value argument is nil: every declared default (including the literal null) is described", 1)
+	// resolved by role: the function of package introspection with signature func(*ast.Value) *string
+	var fn *ssa.Function
+	for _, f := range c.moduleFuncs(func(p string) bool { return p == pkgIntrosp }) {
+		if f.Parent() == nil && f.Signature.Params().Len() == 1 && f.Signature.Results().Len() == 1 && an.NamedIs(f.Signature.Params().At(0).Type(), pkgAST, "Value") {
+			if p, ok := f.Signature.Results().At(0).Type().(*types.Pointer); ok {
+				if b, ok := p.Elem().Underlying().(*types.Basic); ok && b.Kind() == types.String {
+					fn = f
+				}
+			}
+		}
+	}
+	if fn == nil {
+		c.R.Fail("unresolved anchor: no func(*ast.Value) *string in package introspection")
+		return
+	}
+	bad := ""
+	nnil := 0
+	for _, r := range an.Returns(fn) {
+		for _, ve := range returnValueEdges(r, 0) {
+			if !an.IsNilConst(ve.val) {
+				continue
+			}
+			nnil++
+			gs := an.BlockGuards(ve.from)
+			if ve.edgeIf != nil {
+				gs = append(gs, *ve.edgeIf)
+			}
+			ok := false
+			for _, g := range gs {
+				if empty, k := an.EmptinessFact(an.FactOf(g), func(v ssa.Value) bool { return v == ssa.Value(fn.Params[0]) }); k && empty {
+					ok = true
+				}
+			}
+			if !ok {
+				bad = "nil (no default) can be returned at " + c.ipos(r) + " for a value node that is present: a declared default (for example `= null`) disappears from the introspection result"
+			}
+		}
+	}
+	c.R.Check(bad == "" && nnil > 0, shortFn(fn)+"/nil-only-when-absent", c.pos(fn.Pos()), "nil only on value == nil", bad)
 }
 
 func c16OwnAttributes(c *Ctx) {
